@@ -102,6 +102,7 @@ def main():
                 if tot["errors"] <= 3:
                     sys.stderr.write("harness error on case %s\n%s\n" % (
                         json.dumps(case, default=repr)[:2000], traceback.format_exc()))
+                    emit({"t": "harness_error", "case": case, "tb": traceback.format_exc()[-2500:]})
                 continue
             if res.get("timeout"):
                 tot["timeouts"] += 1
